@@ -239,3 +239,68 @@ def c15_semantics(r, seed, tier, model_ok):
     finally:
         os.chdir(cwd); shutil.rmtree(SCR, ignore_errors=True); MOD._MODULE_REGISTRY.clear()
     r.slice("import_semantics", n, n, ["ㄴ ㄷ ㅂㅎㄷ  vs  'ㄴ/ㄷ.txt' ㅂㅎㄴ"], dict(cnt), "implementation-side oracles: one object per file, evaluate once, context-free, bad modules are language errors", bad[:40])
+
+# ------------------------------------------------------------------ C20
+def _seq(cases, cwd=None, hashseed="0"):
+    p = subprocess.run([vlib.PY, os.path.join(vlib.ROOT, "tools", "seq_runner.py")], input=json.dumps(dict(repo=vlib.REPO, cwd=cwd, cases=cases), ensure_ascii=False),
+                       capture_output=True, text=True, env=dict(os.environ, PYTHONHASHSEED=str(hashseed)), timeout=600)
+    try: return json.loads(p.stdout)
+    except Exception: return [["RUNNER-FAILED " + p.stderr[-200:], "", ""]] * len(cases)
+
+def c20_isolation(r, seed, tier, model_ok):
+    """(a) sequences of programs (pure, throwing, dictionary-heavy, I/O with canned stdin, importing; plus NEAR-COPIES of each other laid out on
+    the same lines, so that every per-position / per-line memo would be shared) evaluated in ONE process in several orders and with
+    repetitions: each output must equal the output of the same program alone in a fresh process; (b) the same programs under several host
+    hash seeds: identical output including the text of error messages"""
+    import concurrent.futures, slices_core, slices_values
+    R = random.Random(seed * 7919 + 0xC20); SCR = scratch("c20")
+    os.makedirs(os.path.join(SCR, "ㄴ")); open(os.path.join(SCR, "ㄴ", "ㄷ.txt"), "w", encoding="utf-8").write("ㄱㅇㄱ ㄱㅇㄱ ㄱㅎㄷ ㅎ"); open(os.path.join(SCR, "ㄹ"), "w", encoding="utf-8").write("ㄴ ㄷ ㄹ ㅁㄹㅎㄹ")
+    progs = []
+    base, _ = slices_core.gen_programs(R, N(tier, 60, 600))
+    def layout(ws, cuts):        # words joined by spaces, newline before the words whose index is in cuts
+        return "".join(("\n" if i in cuts else " " if i else "") + w for i, w in enumerate(ws))
+    SW = {"ㄱ": "ㄷ", "ㄷ": "ㄱ", "ㄴ": "ㅈ", "ㅈ": "ㄴ", "ㄴㄴ": "ㄴㅁ", "ㄴㅁ": "ㄴㄴ", "ㅁㄹ": "ㄷㅂ", "ㄷㅂ": "ㅁㄹ", "ㅈㅈ": "ㄱㅈ", "ㄱㅈ": "ㅈㅈ"}
+    for p in base:
+        ws = p["words"]; cuts = {i for i in range(1, len(ws)) if R.random() < .35}
+        progs.append(dict(text=layout(ws, cuts)))
+        idx = [i for i, w in enumerate(ws) if w in SW]
+        for _ in range(2):
+            if idx:
+                i = R.choice(idx); ws2 = list(ws); ws2[i] = SW[ws[i]]; progs.append(dict(text=layout(ws2, cuts)))       # near-copy: one name changed, same lines and columns elsewhere
+    g = slices_values.EqGen(R)
+    for _ in range(N(tier, 40, 400)): progs.append(dict(text=g.prog()[0]))
+    for _ in range(N(tier, 30, 300)):
+        t, _, _ = slices_core.io_text_closed(R, R.randrange(1, 4)); progs.append(dict(text=t, stdin="".join(R.choice(["a", "bc", ""]) + "\n" for _ in range(R.randrange(0, 4)))))
+    imps = ["ㄴ ㄷ ㅂㅎㄷ", "ㄹ ㅂㅎㄴ", "ㅁ (ㄴ ㄷ ㅂㅎㄷ) ㅎㄴ", "ㄴ ㄷ ㅂㅎㄷ ㄴ ㄷ ㅂㅎㄷ ㄴㅎㄷ", "ㅈ ㅂㅎㄴ", "ㄱ (ㄹ ㅂㅎㄴ) ㅎㄴ"]
+    for t in imps * 2: progs.append(dict(text=t))
+    progs += [dict(text="ㄴ ㄷ ㄷ\nㅎㄷ"), dict(text="ㄴ ㄷ ㄱ\nㅎㄷ"), dict(text="ㄴ ㄷ ㄴ\nㅎㄷ"), dict(text="ㄴ ㄷ (ㄱㅇㄱ ㅎ)\nㅎㄷ")]
+    uniq = list({(p["text"], p.get("stdin", "")): p for p in progs}.values())
+    try:
+        with concurrent.futures.ThreadPoolExecutor(vlib.NPROC) as ex:
+            fresh = list(ex.map(lambda p: _seq([p], SCR)[0], uniq))
+            ref = {(p["text"], p.get("stdin", "")): o for p, o in zip(uniq, fresh)}
+            seqs = []
+            for _ in range(N(tier, 60, 600)):
+                k = R.randrange(2, 9); s = [R.choice(uniq) for _ in range(k)]
+                if R.random() < .5: s = s + [s[0]] + list(reversed(s))           # repetitions and the reverse order
+                seqs.append(s)
+            seqs.append(uniq); seqs.append(list(reversed(uniq)))
+            outs = list(ex.map(lambda s: _seq(s, SCR), seqs))
+            seeds = ["0", "1", "2", "12345", "random"][:N(tier, 4, 5)]
+            byseed = list(ex.map(lambda hs: _seq(uniq, SCR, hs), seeds))
+    finally:
+        shutil.rmtree(SCR, ignore_errors=True)
+    bad = []; n = 0
+    for s, o in zip(seqs, outs):
+        for i, (p, got) in enumerate(zip(s, o)):
+            n += 1
+            if got != ref[(p["text"], p.get("stdin", ""))] and "TIMEOUT" not in got[0] + ref[(p["text"], p.get("stdin", ""))][0]:
+                bad.append(dict(program=p["text"], stdin=p.get("stdin", ""), impl=f"as step {i + 1} of a sequence of {len(s)}: {got[0][:150]!r} out={got[1][:60]!r}", model=f"alone in a fresh process: {ref[(p['text'], p.get('stdin', ''))][0][:150]!r}",
+                                sequence=[q["text"][:80] for q in s[:i + 1]][-4:], which=["isolation"]))
+    bad2 = []
+    for hs, o in zip(seeds[1:], byseed[1:]):
+        for p, a, b in zip(uniq, byseed[0], o):
+            if a != b and "TIMEOUT" not in a[0] + b[0]: bad2.append(dict(program=p["text"], impl=f"PYTHONHASHSEED={hs}: {b[0][:200]!r}", model=f"PYTHONHASHSEED=0: {a[0][:200]!r}", which=["hash-seed"]))
+    r.slice("sequences_vs_fresh_process", n, len(uniq), [uniq[0]["text"], uniq[1]["text"]], dict(programs=len(uniq), sequences=len(seqs), steps=n, outcome_kinds=dict(collections.Counter(o[0].split()[0] for o in fresh))),
+            "program sequences (orders, repetitions, near-copies on identical line layouts, imports) in one process vs each program alone in a fresh process; distinct = distinct programs", bad[:40])
+    r.slice("hash_seeds", len(uniq) * len(seeds), len(uniq), [uniq[-1]["text"]], dict(seeds=seeds), "every program under several PYTHONHASHSEED values: result, error text, stdout identical", bad2[:40])
